@@ -148,6 +148,52 @@ impl<K, V, const N: usize> Map<K, V, N> {
     }
 }
 
+/// The contract of the insertion cores (`insert_i`, `insert_ii`): what a call that
+/// *returns* `r = (index, displaced)` has done to the table.
+pub open spec fn insert_post<K: PartialEq, V, const N: usize>(pre: Map<K, V, N>, post: Map<K, V, N>, k: K, v: V, update_key: bool, r: (usize, Option<(K, V)>)) -> bool {
+    &&& post.wf_weak()
+    &&& r.0 <= pre.slen()
+    // key found at slot r.0: same len, that slot replaced, everything else untouched
+    &&& r.0 < pre.slen() ==> {
+        &&& post.slen() == pre.slen()
+        &&& pre.slot(r.0 as int).is_some()
+        &&& forall|j: int| 0 <= j < N && j != r.0 ==> post.slot(j) == pre.slot(j)
+        &&& !update_key ==> post.slot(r.0 as int) == Some((pre.slot(r.0 as int).unwrap().0, v))
+                && r.1 == Some((k, pre.slot(r.0 as int).unwrap().1))
+        &&& update_key ==> post.slot(r.0 as int) == Some((k, v)) && r.1 == pre.slot(r.0 as int)
+        &&& K::obeys_eq_spec() ==> pre.key_at(r.0 as int).eq_spec(&k)
+    }
+    // key not found: appended at the old len, which must be below capacity
+    &&& r.0 == pre.slen() ==> {
+        &&& pre.slen() < N
+        &&& post.slen() == pre.slen() + 1
+        &&& post.slot(r.0 as int) == Some((k, v))
+        &&& r.1.is_none()
+        &&& forall|j: int| 0 <= j < N && j != r.0 ==> post.slot(j) == pre.slot(j)
+    }
+    // the slot chosen is the first one whose key equals k
+    &&& K::obeys_eq_spec() ==> forall|j: int| 0 <= j < r.0 ==> !(#[trigger] slot_of(pre.pairs, j)).unwrap().0.eq_spec(&k)
+    // C05: key uniqueness is preserved (stored key kept)
+    &&& K::obeys_eq_spec() && eq_symmetric::<K>() && !update_key && pre.keys_distinct() ==> post.keys_distinct()
+}
+
+/// The contract of the swap-remove lookups (`remove_entry`, `remove`): what a call that
+/// returns `Some(kv)` / `None` has done to the table.
+pub open spec fn remove_post<K: Borrow<Q>, Q: PartialEq + ?Sized, V, const N: usize>(pre: Map<K, V, N>, post: Map<K, V, N>, q: &Q, r: Option<(K, V)>) -> bool {
+    &&& post.wf_weak()
+    &&& lawful::<K, Q>() ==> match r {
+        Some(kv) => exists|j: int| {
+            &&& #[trigger] pre.first_match(q, j)
+            &&& pre.slot(j) == Some(kv)
+            &&& post.slen() == pre.slen() - 1
+            &&& j != post.slen() ==> post.slot(j) == pre.slot(pre.slen() - 1)
+            &&& forall|i: int| 0 <= i < post.slen() && i != j ==> post.slot(i) == pre.slot(i)
+        },
+        None => pre.no_match(q) && post == pre,
+    }
+    &&& forall|rel: spec_fn(K, K) -> bool| #[trigger] pre.distinct_by(rel) ==> post.distinct_by(rel)
+}
+
 /// ASSUMED: `core::mem::drop(x)` destroys `x` and has no other effect on the caller's
 /// state (vstd has no specification for it).  It may unwind.
 pub assume_specification<T>[ core::mem::drop::<T> ](x: T)
